@@ -101,6 +101,7 @@ type c04Case struct {
 	Height  int    `json:"height"`
 	Pal     int    `json:"palette"`
 	Probes  []int  `json:"probe_adjs,omitempty"`
+	Reused  bool   `json:"renderer_reused,omitempty"` // a dirtying prelude runs on the same Renderer before Reset
 	G       [3]int `json:"cbase_nbase_nstops,omitempty"`
 	Tmpl    int    `json:"template,omitempty"`
 	Desc    string `json:"desc,omitempty"`
@@ -142,6 +143,9 @@ func init() {
 				for _, h := range c04Heights {
 					st.history(&c04Case{Kind: "history", Letters: seq, Height: h, Pal: pal, Probes: []int{0, 1}})
 					st.history(&c04Case{Kind: "history", Letters: seq, Height: h, Pal: pal, Probes: []int{6, 0}})
+					if len(seq) <= 2 {
+						st.history(&c04Case{Kind: "history", Letters: seq, Height: h, Pal: pal, Probes: []int{1, 0}, Reused: true})
+					}
 				}
 				if len(seq) == D {
 					return
@@ -287,16 +291,33 @@ func (st *c04State) history(cs *c04Case) {
 	w.Eval()
 	w.State(1)
 	rect := image.Rect(0, 0, 32, cs.Height)
+	if (cs.Pal+cs.Height)%2 == 1 {
+		rect = image.Rect(3, 7, 35, 7+cs.Height) // the raster HEIGHT counts, not its bottom edge
+	}
 	pal := c04Pals[cs.Pal]
 	st.z = render.Renderer{}
 	st.z.SetRasterizer(&st.ras, rect)
+	if cs.Reused {
+		// the same Renderer rendered another graphic with the SAME palette before: every colour and
+		// number register, both selectors and the LOD are dirty when Reset is called
+		st.z.Reset(ivg.DefaultViewBox, pal)
+		for i := 0; i < 64; i++ {
+			st.z.SetCReg(0, true, rgba(uint8(4*i), 0x11, uint8(255-i), 0xff))
+			st.z.SetNReg(0, true, 0.5+float32(i))
+		}
+		st.z.SetCSel(13)
+		st.z.SetNSel(17)
+		st.z.SetLOD(float32(cs.Height)+5, float32(cs.Height)+6)
+		st.z.StartPath(0, 0, 0)
+		st.z.AbsQuadTo(1, 2, 3, 4)
+	}
 	st.z.Reset(ivg.DefaultViewBox, pal)
 	st.vm.Reset(pal)
 	calls := c04Calls(cs.Letters, cs.Height)
 	fail := func(key, what string) {
 		c := *cs
 		c.Letters = append([]int(nil), cs.Letters...)
-		c.Desc = fmt.Sprintf("height %d palette %d history [%s] probes %v", cs.Height, cs.Pal, rec.CallsString(calls), cs.Probes)
+		c.Desc = fmt.Sprintf("rect %v palette %d reused=%v history [%s] probes %v", rect, cs.Pal, cs.Reused, rec.CallsString(calls), cs.Probes)
 		w.Fail(key, c.Desc+": "+what, c)
 	}
 	for i := range calls {
